@@ -5,7 +5,7 @@
 (* the targeting relation (program, population) and the effect table (parameter, population) -> set *)
 (* of programs with an outcome.  Editing operations are actions on this content; exporting to a      *)
 (* spreadsheet and importing is the identity on it.  WellFormed (no effect or target refers to a     *)
-(* population, program or parameter that is no longer there) is an invariant of every history, and   *)
+(* population, program, parameter or compartment that is no longer there) is an invariant of every history, and   *)
 (* so the object after any history equals the object rebuilt from its own export.                    *)
 (* TLC enumerates the histories and emits the expected visible content after each operation;         *)
 (* BooksTrace.tla compares it with the content projected from the real objects, and with the content *)
@@ -15,39 +15,63 @@ EXTENDS Integers, Sequences, FiniteSets, TLC, Json
 CONSTANTS Pops0, Progs0, Pars0,      \* initial sets of names
           Targets0,                  \* initial set of <<program, population>>
           Effects0,                  \* initial set of <<parameter, population, program>>
+          Comps0,                    \* compartments of the framework (the program book lists them; an import re-derives them from the framework)
+          CTargets0,                 \* initial set of <<program, compartment>>
           NewPop, NewProg, MaxLen, Ops
-VARIABLES pops, progs, pars, targets, effects, hist, obs
-vars == <<pops, progs, pars, targets, effects, hist, obs>>
-Content == [pops |-> pops, progs |-> progs, pars |-> pars, targets |-> targets, effects |-> effects]
-Init == pops = Pops0 /\ progs = Progs0 /\ pars = Pars0 /\ targets = Targets0 /\ effects = Effects0 /\ hist = <<>> /\ obs = ""
+VARIABLES pops, progs, pars, targets, effects, comps, ctargets, hist, obs
+vars == <<pops, progs, pars, targets, effects, comps, ctargets, hist, obs>>
+Content == [pops |-> pops, progs |-> progs, pars |-> pars, targets |-> targets, effects |-> effects, comps |-> comps, ctargets |-> ctargets]
+Init == /\ pops = Pops0 /\ progs = Progs0 /\ pars = Pars0 /\ targets = Targets0 /\ effects = Effects0
+        /\ comps = Comps0 /\ ctargets = CTargets0 /\ hist = <<>> /\ obs = ""
 Record(op, arg) == /\ hist' = Append(hist, <<op, arg>>)
-                   /\ obs' = ToJson([hist |-> hist', content |-> [pops |-> pops', progs |-> progs', pars |-> pars', targets |-> targets', effects |-> effects']])
-Same == UNCHANGED <<pops, progs, pars, targets, effects>>
+                   /\ obs' = ToJson([hist |-> hist', content |-> [pops |-> pops', progs |-> progs', pars |-> pars', targets |-> targets', effects |-> effects',
+                                                                    comps |-> comps', ctargets |-> ctargets']])
+Same == UNCHANGED <<pops, progs, pars, targets, effects, comps, ctargets>>
 Copy == "copy" \in Ops /\ Same /\ Record("copy", "")
 Sample0 == /\ "sample0" \in Ops /\ \A k \in 1..Len(hist) : hist[k][1] # "sample0"      \* (an object can be sampled once)
            /\ Same /\ Record("sample0", "")                                   \* sampling with zero uncertainty returns an equal copy
-RoundTrip == "roundtrip" \in Ops /\ Same /\ Record("roundtrip", "")           \* export to a spreadsheet, import it again
+\* export to a spreadsheet, import it again: the identity on the visible content, except that the lists of compartments and of targetable
+\* parameters are read from the framework again (a compartment or parameter removed from the object, which by then no program targets
+\* and no effect refers to, is listed again; one added under a name the framework does not have is not)
+RoundTrip == /\ "roundtrip" \in Ops /\ UNCHANGED <<pops, progs, targets, effects, ctargets>> /\ comps' = Comps0 /\ pars' = Pars0 /\ Record("roundtrip", "")
 AddPop == /\ "add_pop" \in Ops /\ NewPop \notin pops
-          /\ pops' = pops \cup {NewPop} /\ UNCHANGED <<progs, pars, targets, effects>> /\ Record("add_pop", NewPop)
+          /\ pops' = pops \cup {NewPop} /\ UNCHANGED <<progs, pars, targets, effects, comps, ctargets>> /\ Record("add_pop", NewPop)
 RemovePop(p) == /\ "remove_pop" \in Ops /\ p \in pops /\ Cardinality(pops) > 1
                 /\ pops' = pops \ {p}
                 /\ targets' = {t \in targets : t[2] # p}
                 /\ effects' = {e \in effects : e[2] # p}
-                /\ UNCHANGED <<progs, pars>> /\ Record("remove_pop", p)
+                /\ UNCHANGED <<progs, pars, comps, ctargets>> /\ Record("remove_pop", p)
 AddProg == /\ "add_program" \in Ops /\ NewProg \notin progs
-           /\ progs' = progs \cup {NewProg} /\ UNCHANGED <<pops, pars, targets, effects>> /\ Record("add_program", NewProg)
+           /\ progs' = progs \cup {NewProg} /\ UNCHANGED <<pops, pars, targets, effects, comps, ctargets>> /\ Record("add_program", NewProg)
 RemoveProg(g) == /\ "remove_program" \in Ops /\ g \in progs /\ Cardinality(progs) > 1
                  /\ progs' = progs \ {g}
                  /\ targets' = {t \in targets : t[1] # g}
                  /\ effects' = {e \in effects : e[3] # g}
-                 /\ UNCHANGED <<pops, pars>> /\ Record("remove_program", g)
+                 /\ ctargets' = {t \in ctargets : t[1] # g}
+                 /\ UNCHANGED <<pops, pars, comps>> /\ Record("remove_program", g)
 RemovePar(x) == /\ "remove_par" \in Ops /\ x \in pars
                 /\ pars' = pars \ {x}
                 /\ effects' = {e \in effects : e[1] # x}
-                /\ UNCHANGED <<pops, progs, targets>> /\ Record("remove_par", x)
+                /\ UNCHANGED <<pops, progs, targets, comps, ctargets>> /\ Record("remove_par", x)
+\* adding a targetable parameter (one of the framework that the object does not list: ProgramSet.add_par "when an existing project has a
+\* change made to the framework"): it has no effects yet, nothing else changes, and the object can still be exported and read back
+AddPar(x) == /\ "add_par" \in Ops /\ x \in Pars0 \ pars
+             /\ pars' = pars \cup {x} /\ UNCHANGED <<pops, progs, targets, effects, comps, ctargets>> /\ Record("add_par", x)
+\* removing a compartment also removes it from every program's target compartments; adding one (a compartment of the framework that the
+\* object does not list: ProgramSet.add_comp "after a change made to the framework") makes it targetable again and changes nothing else
+RemoveComp(c) == /\ "remove_comp" \in Ops /\ c \in comps
+                 /\ comps' = comps \ {c}
+                 /\ ctargets' = {t \in ctargets : t[2] # c}
+                 /\ UNCHANGED <<pops, progs, pars, targets, effects>> /\ Record("remove_comp", c)
+AddComp(c) == /\ "add_comp" \in Ops /\ c \in Comps0 \ comps
+              /\ comps' = comps \cup {c}
+              /\ UNCHANGED <<pops, progs, pars, targets, effects, ctargets>> /\ Record("add_comp", c)
 Next == /\ Len(hist) < MaxLen
-        /\ (Copy \/ Sample0 \/ RoundTrip \/ AddPop \/ AddProg \/ (\E p \in pops : RemovePop(p)) \/ (\E g \in progs : RemoveProg(g)) \/ (\E x \in pars : RemovePar(x)))
+        /\ (Copy \/ Sample0 \/ RoundTrip \/ AddPop \/ AddProg \/ (\E p \in pops : RemovePop(p)) \/ (\E g \in progs : RemoveProg(g)) \/ (\E x \in pars : RemovePar(x))
+            \/ (\E x \in Pars0 : AddPar(x)) \/ (\E c \in comps : RemoveComp(c)) \/ (\E c \in Comps0 : AddComp(c)))
 Spec == Init /\ [][Next]_vars
 WellFormed == /\ \A t \in targets : t[1] \in progs /\ t[2] \in pops
               /\ \A e \in effects : e[1] \in pars /\ e[2] \in pops /\ e[3] \in progs
+              /\ \A t \in ctargets : t[1] \in progs /\ t[2] \in comps
+              /\ comps \subseteq Comps0 /\ pars \subseteq Pars0
 ====
